@@ -145,6 +145,24 @@ func TestVerifReplayC16(t *testing.T) {
 			}
 		}
 	}
+	// what HasChanged does compare is compared exactly: white space inside a Go string literal is code
+	exact := [][2]string{
+		{"<pre>{ \"name  qty\" }</pre>", "<pre>{ \"name qty\" }</pre>"},
+		{"<p title={ \"a\\tb\" }></p>", "<p title={ \"a b\" }></p>"},
+		{"<p>{ x + \" \" }</p>", "<p>{ x + \"\" }</p>"},
+		{"<p>{ x }</p>", "<p>{ x  }</p>"},
+	}
+	for _, pr := range exact {
+		opa, ca, err1 := verifGen("package p\n\ntempl t(x string) {\n\t" + pr[0] + "\n}\n")
+		opb, cb, err2 := verifGen("package p\n\ntempl t(x string) {\n\t" + pr[1] + "\n}\n")
+		if err1 != nil || err2 != nil {
+			continue
+		}
+		pairs++
+		if !HasChanged(opa, opb) && verifSkeleton(ca) != verifSkeleton(cb) {
+			report("exact", fmt.Sprintf("edit %q -> %q: HasChanged reports no recompilation although the Go expressions differ (%q vs %q) and so does the generated code", pr[0], pr[1], opa.SourceMap.Expressions, opb.SourceMap.Expressions))
+		}
+	}
 	if len(found) == 0 {
 		fmt.Printf("REPLAY-NOT-REPRODUCED bounded search: %d templates for the literal protocol, %d edit pairs for HasChanged\n", len(names), pairs)
 	}
@@ -204,7 +222,10 @@ func replayC16(r *Run, o *Obligation) *ReplayResult {
 	}
 	want := "[literals]"
 	if strings.Contains(o.Name, "HasChanged") {
-		want = "[skeleton]"
+		want = "[exact]"
+		if strings.Contains(o.Name, "HasChanged#ensures.1@") {
+			want = "[skeleton]" // the listed known finding
+		}
 	}
 	for _, line := range strings.Split(out, "\n") {
 		if strings.Contains(line, "REPLAY-CONFIRMED "+want) {
